@@ -472,6 +472,10 @@ func (g *gen) mutateTree(root *mnode) string {
 	root.all(&ns)
 	n := ns[g.rng.Intn(len(ns))]
 	cur := n.ser()
+	if len(cur) == 0 { // dropped by an earlier mutation of the same input
+		n.override = []byte{byte(g.rng.Intn(256))}
+		return "node-reinsert"
+	}
 	switch op := g.rng.Intn(13); op {
 	case 0:
 		n.override = []byte{0x80}
